@@ -43,6 +43,7 @@ def abi_of(arch, plat, abi, cc):
     darwin = abi == 2
     if arch == 0:
         if cc == 4: return "thiscall32" if win else "cdecl32"
+        if cc in (5, 6, 7): return "regparm%d_32" % (cc - 4)
         return {0: "cdecl32", 1: "stdcall32", 2: "fastcall32"}.get(cc)
     if arch == 1:
         if cc == 32: return "sysv64"
@@ -72,9 +73,12 @@ def ret_universe(abi, t):
     return universe(abi, t)
 
 
-I386 = ("cdecl32", "stdcall32", "fastcall32", "thiscall32")
+I386 = ("cdecl32", "stdcall32", "fastcall32", "thiscall32", "regparm1_32", "regparm2_32", "regparm3_32")
 DEVIATIONS = {
     "thiscall32": ["raw-slot", "no-align", "split-int64-regs", "va-ignored"],
+    "regparm1_32": ["raw-slot", "no-align", "split-int64-last-reg", "va-ignored"],
+    "regparm2_32": ["raw-slot", "no-align", "split-int64-last-reg", "va-ignored"],
+    "regparm3_32": ["raw-slot", "no-align", "split-int64-last-reg", "va-ignored"],
     "sysv64": ["raw-slot", "no-align", "no-loc-mask-mmx", "f80-xmm", "mask-ret-xmm"],
     "win64": ["indirect-bump", "oob16", "no-loc-mask"],
     "vectorcall64": ["sequential-after-48", "indirect-bump", "oob16", "no-loc-mask"],
@@ -100,7 +104,7 @@ def expect(abi, va, ret, args, dev=frozenset()):
         gp = [1, 2, 8, 9]
         vcall = abi == "vectorcall64"
         nvec = 6 if vcall else 4
-        seq = bool(dev) if not vcall else ("sequential-after-48" in dev)      # the implementation's sequential stack offsets
+        seq = ("sequential-after-48" in dev) if vcall else ("indirect-bump" in dev)      # the unpatched sequential stack offsets
         off = 48 if (vcall and seq) else 32
         for i, t in enumerate(args):
             if is_mask(t) and "no-loc-mask" in dev:
@@ -128,6 +132,7 @@ def expect(abi, va, ret, args, dev=frozenset()):
         a64 = abi in ("aapcs64", "apple64")
         if abi == "sysv64": int_regs, vec_regs = [7, 6, 2, 1, 8, 9], list(range(8))
         elif a64: int_regs, vec_regs = list(range(8)), list(range(8))
+        elif abi.startswith("regparm"): int_regs, vec_regs = [0, 2, 1][:int(abi[7])], [0, 1, 2]
         else: int_regs, vec_regs = ([1, 2] if abi == "fastcall32" else [1] if abi == "thiscall32" else []), [0, 1, 2]
         eff_va = va and not ("va-ignored" in dev)
         ni = nv = 0
@@ -135,7 +140,7 @@ def expect(abi, va, ret, args, dev=frozenset()):
         for t in args:
             comps = [(t, False)]
             if word == 4 and t in (40, 41):
-                comps = [(39, True), (t - 2, True)]
+                comps = [(39, "lo"), (t - 2, "hi")]
             pack = []
             for (c, half) in comps:
                 # ---- classification
@@ -150,10 +155,15 @@ def expect(abi, va, ret, args, dev=frozenset()):
                     if is_int(c):
                         cls = "int"
                         if eff_va or not int_regs: cls = "mem"
-                        if half and "split-int64-regs" not in dev: cls = "mem"
+                        if half and not abi.startswith("regparm") and "split-int64-regs" not in dev: cls = "mem"
                     elif 71 <= c <= 100: cls = "mem" if va else "sse"
                     else: cls = "mem"
                 # ---- register?
+                if cls == "int" and abi.startswith("regparm") and half == "lo" and ni + 2 > len(int_regs) and "split-int64-last-reg" not in dev:
+                    # GNU regparm: a 64-bit integer takes a register pair or goes to the stack as a whole; no register is used afterwards
+                    ni = len(int_regs) + 1
+                if cls == "int" and abi.startswith("regparm") and half == "hi" and ni > len(int_regs):
+                    pass
                 if cls == "int" and ni < len(int_regs):
                     pack.append(R(GP32 if sizeof(c) <= 4 else GP64, int_regs[ni])); ni += 1; continue
                 if cls == "sse" and nv < len(vec_regs):
@@ -215,6 +225,9 @@ CONSTS = {
     "stdcall32": (0, 0, 4, 1, sum(1 << i for i in (3, 4, 5, 6, 7)), 0, [], [0, 1, 2]),
     "fastcall32": (0, 0, 4, 1, sum(1 << i for i in (3, 4, 5, 6, 7)), 0, [1, 2], [0, 1, 2]),
     "thiscall32": (0, 0, 4, 1, sum(1 << i for i in (3, 4, 5, 6, 7)), 0, [1], [0, 1, 2]),
+    "regparm1_32": (0, 0, 4, 0, sum(1 << i for i in (3, 4, 5, 6, 7)), 0, [0], [0, 1, 2]),
+    "regparm2_32": (0, 0, 4, 0, sum(1 << i for i in (3, 4, 5, 6, 7)), 0, [0, 2], [0, 1, 2]),
+    "regparm3_32": (0, 0, 4, 0, sum(1 << i for i in (3, 4, 5, 6, 7)), 0, [0, 2, 1], [0, 1, 2]),
     "aapcs64": (0, 0, 16, 0, sum(1 << i for i in range(18, 31)), sum(1 << i for i in range(8, 16)), list(range(8)), list(range(8))),
     "apple64": (0, 0, 16, 0, sum(1 << i for i in range(18, 31)), sum(1 << i for i in range(8, 16)), list(range(8)), list(range(8))),
 }
